@@ -14,7 +14,7 @@ import sys
 import tempfile
 
 from harness.common import Batch, rng, write_summary, exc_name, time_limit, HangTimeout
-from harness.search_common import (INF_TOKEN, iv, ProbeRep, FitnessProbe, RecordingBudget, Observer, Ids, Stalled, make_rep,
+from harness.search_common import (INF_TOKEN, iv, TransientFailure, ProbeRep, FitnessProbe, RecordingBudget, Observer, Ids, Stalled, make_rep,
                                    search_grammar, prog_value, icomps)
 
 from geneticengine.algorithms.random_search import RandomSearch
@@ -66,13 +66,14 @@ def base_cfg(mini, multi, alg, fb=1, b=1, n=0, budget="none", evaluator="seq"):
             "n": n, "budget": budget, "evaluator": evaluator}
 
 
-def direct_session(R, hist, mini, multi, shape, repkind):
-    """feed a tracker with batches; the k-th fitness invocation returns hist[k]"""
+def direct_session(R, hist, mini, multi, shape, repkind, fail_at=()):
+    """feed a tracker with batches; the k-th fitness invocation returns hist[k]; invocations listed in fail_at raise"""
     events = []
     ids = Ids()
     rs = NativeRandomSource(R.randint(0, 10 ** 6))
     rep = make_rep(repkind, rs)
     ff = FitnessProbe(events, "scripted", hist, single=not multi)
+    ff.fail_at = tuple(fail_at)
     problem = make_problem(ff, mini, multi)
     tracker = make_tracker(problem, multi, SequentialEvaluator(), [Observer(events, ids)])
     fresh = [Individual(rep.create_genotype(rs), rep) for _ in hist]
@@ -95,13 +96,16 @@ def direct_session(R, hist, mini, multi, shape, repkind):
             # evaluate one member through the evaluator BEFORE the tracker sees it (selection steps do this)
             tracker.evaluator.evaluate(problem, [R.choice(batch)])
         events.append({"e": "present", "ids": [ids.of(x) for x in batch]})
-        tracker.evaluate(batch)
+        try:
+            tracker.evaluate(batch)
+        except TransientFailure:
+            pass        # the caller survives the fault and looks at the tracker: what was evaluated before it counts
         if multi:
             fr = tracker.get_best_individuals()
-            bagg = iv(fr[0].get_fitness(problem).maximizing_aggregate) if fr else -(2 * 10 ** 9)
+            bagg = iv(fr[0].get_fitness(problem).maximizing_aggregate) if fr else -2147483647
         else:
             bi = tracker.get_best_individual()
-            bagg = iv(bi.get_fitness(problem).maximizing_aggregate) if bi is not None else -(2 * 10 ** 9)
+            bagg = iv(bi.get_fitness(problem).maximizing_aggregate) if bi is not None else -2147483647
         events.append({"e": "endpresent", "ids": [ids.of(x) for x in batch], "bestagg": bagg})
         presented += [x for x in batch if x not in presented]
     return events, base_cfg(mini, multi, "direct")
@@ -365,6 +369,27 @@ def main():
         for alg in ("RS", "HC", "GP"):
             ev, cfg = algorithm_run(R, alg, [[x] for x in h], "scripted", [mi], False, "eval", len(h) + 2, "tree", pop=3, k=2)
             batch.trace(f"run/inf/{hi}/{alg}", ev, cfg)
+            stats["events"] += len(ev)
+
+    # large magnitudes: a strict improvement is an improvement however small it is relative to the values
+    BIG = 1900000000
+    for hi, (h, mi) in enumerate([([BIG, BIG + 1, BIG + 2, BIG + 1, BIG + 3], False), ([BIG + 3, BIG + 2, BIG + 2, BIG + 1], True),
+                                  ([-BIG, -BIG + 1, -BIG + 2], False), ([BIG, BIG - 1, BIG + 1, BIG - 2], True)]):
+        for shape in shapes:
+            ev, cfg = direct_session(R, [[x] for x in h], [mi], False, shape, "tree")
+            batch.trace(f"directbig/{hi}/{shape}", ev, cfg)
+            stats["events"] += len(ev)
+        ev, cfg = algorithm_run(R, "RS", [[x] for x in h], "scripted", [mi], False, "eval", len(h), "tree")
+        batch.trace(f"run/big/{hi}/RS", ev, cfg)
+        stats["events"] += len(ev)
+    # a fitness function that fails in the middle of a batch: whatever was evaluated before the fault is known to the tracker
+    for hi, h in enumerate(hs1[: (10 if quick else 60)]):
+        if len(h) < 3:
+            continue
+        for shape in ("one", "parts"):
+            fa = (R.randint(1, len(h) - 1),)
+            ev, cfg = direct_session(R, h, [bool(hi % 2)], False, shape, "tree", fail_at=fa)
+            batch.trace(f"directfault/{hi}/{shape}/{fa[0]}", ev, cfg)
             stats["events"] += len(ev)
 
     # algorithm runs
